@@ -179,32 +179,22 @@ def dictWrap (lv : Node) (loop : DState → Except MErr DState) : Except MErr No
     | .ok st => .ok (.map la (st.entries ++ st.buffer))
   | _ => .error .merge
 
+/-- "Synchronize any YAML Tag" after a nested merge: `lhs[key].tag` is read from the merged value. -/
+def syncTag (res : Except MErr Node) : Except MErr Node :=
+  match res with
+  | .error e => .error e
+  | .ok m =>
+    match tagOf m with
+    | .error e => .error e
+    | .ok _ => .ok m
+
 mutual
 /-- The deep merge of the right-hand value `val` (found under a key present on both sides, or at
 the root) into the left-hand value `lv`.  `c` are `val`'s coordinates. -/
 def mergeVal (env : Env) (lv : Node) (c : Coords) : (val : Node) → Except MErr Node
-  | .map _ res =>
-    match dictWrap lv (dictLoop env (.map none res) res) with
-    | .error e => .error e
-    | .ok m =>
-      -- "Synchronize any YAML Tag": lhs[key].tag
-      match tagOf m with
-      | .error e => .error e
-      | .ok _ => .ok m
-  | .seq ra ritems =>
-    match mergeLists env lv ra ritems c with
-    | .error e => .error e
-    | .ok m =>
-      match tagOf m with
-      | .error e => .error e
-      | .ok _ => .ok m
-  | .set ra rms =>
-    match mergeSets env lv ra rms c with
-    | .error e => .error e
-    | .ok m =>
-      match tagOf m with
-      | .error e => .error e
-      | .ok _ => .ok m
+  | .map _ res => syncTag (dictWrap lv (dictLoop env (.map none res) res))
+  | .seq ra ritems => syncTag (mergeLists env lv ra ritems c)
+  | .set ra rms => syncTag (mergeSets env lv ra rms c)
   | .scalar a v => .ok (.scalar a v)
 termination_by structural val => val
 
